@@ -94,7 +94,10 @@ class StoreProp(Prop):
                     try:
                         wn2 = store.persist(wn, op['how'], scratch, op.get('units', 'LPS'), op.get('version', 2.2))
                     except Exception as e:  # noqa
-                        vv.append(V(self.id.lower() + '.restart_raises', '%s:%s' % (op['how'], type(e).__name__), traceback.format_exc()[-900:]))
+                        site = runsim.innermost_repo_frame(e.__traceback__)
+                        leak = any('leak_control' in n_ for n_ in wn.control_name_list)
+                        vv.append(V(self.id.lower() + '.restart_raises', '%s:%s@%s%s' % (op['how'], type(e).__name__, site, ':model_with_leak_controls' if leak else ''),
+                                    traceback.format_exc()[-900:]))
                         wn2 = None
                     if wn2 is not None:
                         vv += self.at_restart(wn, wn2, op, m, c, scratch)
